@@ -28,3 +28,6 @@ def run(chk):
     from . import wrapper_contracts, batcher
     wrapper_contracts.wrapper_obligations(chk, "C01", want=("C01",))
     batcher.check_consumer(chk, "C01")
+    from . import executor_contracts
+    executor_contracts.item_in_child_context(chk, "C01")   # a resumed branch gets a FRESH context: the same position keeps the same id
+    executor_contracts.replay_items(chk, "C01")
